@@ -38,7 +38,10 @@ Local Open Scope nat_scope.
 Inductive outcome := AFail | ARefused | AOk.
 
 Inductive top :=
-| TEvent (e : pv) (args : list pv)   (* the server emits an event on the namespace *)
+| TEvent (e : pv) (args : list pv)   (* the server emits an event on the namespace (one text frame) *)
+| TBinHead (e : pv) (args : list pv) (* header frame of an event with `bytes` arguments: one attachment frame
+                                        per top-level bytes argument has to follow (none: a plain event) *)
+| TBinAtt                            (* the next attachment frame of the event whose header has arrived *)
 | TLose                              (* the transport fails (read loop error) *)
 | TAttempt (o : outcome)             (* the back-off wait elapses: one reconnection attempt *)
 | TClose                             (* the server closes the engine.io connection *)
@@ -62,27 +65,62 @@ Definition tnext (tp : tparams) (ph : tphase) (o : top) : tphase * list hop :=
   | _, _ => (ph, [])
   end.
 
+(* Binary events (packet.py: BINARY_EVENT header + attachments; client.py `_binary_packet`): the header
+   frame only parks the packet, the handler runs when the LAST attachment has arrived.  `pending` =
+   the event whose header has arrived on the current connection: name, arguments, attachments still
+   missing minus one.  The half-received packet belongs to the connection: a loss / CLOSE discards it
+   (`_handle_eio_disconnect`: `self._binary_packet = None`), so an incomplete binary event produces NO
+   handler invocation and leaves NO state across a reconnection.  The server sends the frames of one
+   event back to back: another packet of the server cannot come between them (no-op here and in the
+   driver); the transport, however, can fail between any two frames. *)
+Definition pending := option (pv * list pv * nat).
+Definition tstate := (tphase * pending)%type.
+Definition tstart : tstate := (TUp, None).
+Definition is_bytes (v : pv) : bool := match v with PBytes _ => true | _ => false end.
+Definition natt (a : list pv) : nat := List.length (filter is_bytes a).
+
+Definition tnextb (tp : tparams) (s : tstate) (o : top) : tstate * list hop :=
+  match s, o with
+  | (TUp, None), TBinHead e a =>
+      match natt a with 0 => (s, [HEvent e a]) | S k => ((TUp, Some (e, a, k)), []) end
+  | (TUp, Some (e, a, k)), TBinAtt =>
+      match k with 0 => ((TUp, None), [HEvent e a]) | S k' => ((TUp, Some (e, a, k')), []) end
+  | (TUp, Some _), TEvent _ _ | (TUp, Some _), TBinHead _ _ | (TUp, Some _), TDisc
+  | (TUp, Some _), TAttempt _ => (s, [])
+  | (_, _), TBinHead _ _ | (_, _), TBinAtt => (s, [])
+  | (ph, _), _ => let '(ph', hs) := tnext tp ph o in ((ph', None), hs)
+  end.
+
 (* the handler invocations of every transport event, one list per event *)
-Fixpoint dispatch_from (tp : tparams) (ph : tphase) (l : list top) : list (list hop) :=
+Fixpoint dispatch_from (tp : tparams) (s : tstate) (l : list top) : list (list hop) :=
   match l with
   | [] => []
-  | o :: r => let '(ph', hs) := tnext tp ph o in hs :: dispatch_from tp ph' r
+  | o :: r => let '(s', hs) := tnextb tp s o in hs :: dispatch_from tp s' r
   end.
-Definition dispatch (tp : tparams) (l : list top) : list hop := List.concat (dispatch_from tp TUp l).
+Definition dispatch (tp : tparams) (l : list top) : list hop := List.concat (dispatch_from tp tstart l).
 
-(* specification side: the events the server sent (it can only send while the transport is up),
-   as receive() has to return them *)
-Definition tphase_next (tp : tparams) (ph : tphase) (o : top) : tphase := fst (tnext tp ph o).
-Fixpoint sent_from (tp : tparams) (ph : tphase) (l : list top) : list pv :=
+(* specification side: the events the server sent, as receive() has to return them.  The server can
+   only send while the transport is up, and an event counts as sent when ALL its frames were
+   delivered on one connection (a binary event whose connection is lost between its frames was not
+   sent). *)
+Definition tstate_next (tp : tparams) (s : tstate) (o : top) : tstate := fst (tnextb tp s o).
+Definition completes (s : tstate) (o : top) : option pv :=
+  match s, o with
+  | (TUp, None), TEvent e a => Some (PList (e :: a))
+  | (TUp, None), TBinHead e a => if natt a =? 0 then Some (PList (e :: a)) else None
+  | (TUp, Some (e, a, 0)), TBinAtt => Some (PList (e :: a))
+  | _, _ => None
+  end.
+Fixpoint sent_from (tp : tparams) (s : tstate) (l : list top) : list pv :=
   match l with
   | [] => []
   | o :: r =>
-      match ph, o with
-      | TUp, TEvent e a => PList (e :: a) :: sent_from tp (tphase_next tp ph o) r
-      | _, _ => sent_from tp (tphase_next tp ph o) r
+      match completes s o with
+      | Some x => x :: sent_from tp (tstate_next tp s o) r
+      | None => sent_from tp (tstate_next tp s o) r
       end
   end.
-Definition server_sent (tp : tparams) (l : list top) : list pv := sent_from tp TUp l.
+Definition server_sent (tp : tparams) (l : list top) : list pv := sent_from tp tstart l.
 
 (* the items a handler script appends *)
 Fixpoint items (scr : list hop) : list pv :=
@@ -122,7 +160,7 @@ Fixpoint gtrace (v : variant) (atomic : bool) (c : cfg) (gs : list (list nat)) :
 
 (* the schedule of the model that corresponds to an observed schedule of the tie *)
 Definition tgroups (atomic : bool) (tp : tparams) (T : list top) (sched : list nat) : list (list nat) :=
-  if atomic then groups (map (@List.length hop) (dispatch_from tp TUp T)) sched
+  if atomic then groups (map (@List.length hop) (dispatch_from tp tstart T)) sched
   else map (fun ch => [ch]) sched.
 Definition tinit (tp : tparams) (T : list top) (C : list cop) : cfg := init [dispatch tp T] C.
 
@@ -171,48 +209,136 @@ Proof. intro H; exact H. Qed.
 Lemma lf_giveup f r : lifecycle_from Over f r = true -> lifecycle_from Down (S f) (HFinal :: r) = true.
 Proof. intro H; exact H. Qed.
 
-Lemma dispatch_from_over tp l : List.concat (dispatch_from tp TOver l) = [].
-Proof. induction l as [|o r IH]; simpl; [reflexivity|]. destruct o; simpl; exact IH. Qed.
+(* what one transport event is dispatched to, by phase: the shapes `lifecycle` accepts *)
+Inductive chunk_ok : phase -> list hop -> phase -> Prop :=
+| ck_none ph : chunk_ok ph [] ph
+| ck_event e a : chunk_ok Up [HEvent e a] Up
+| ck_lose : chunk_ok Up [HDisconnect; NsSet false] Down
+| ck_end : chunk_ok Up [HDisconnect; HFinal; NsSet false] Over
+| ck_ok : chunk_ok Down [NsSet true; HConnect] Up
+| ck_giveup : chunk_ok Down [HFinal] Over.
 
-Lemma dispatch_lifecycle_from tp : forall l ph,
-  lifecycle_from (phase_of ph) (S (List.length (List.concat (dispatch_from tp ph l))))
-                 (List.concat (dispatch_from tp ph l)) = true.
+Lemma tnext_chunk tp ph o : chunk_ok (phase_of ph) (snd (tnext tp ph o)) (phase_of (fst (tnext tp ph o))).
 Proof.
-  induction l as [|o r IH]; intro ph; [destruct ph; reflexivity|].
-  cbn [dispatch_from].
-  destruct (tnext tp ph o) as [ph' hs] eqn:E. cbn [List.concat].
-  assert (Hmono : forall n, List.length (List.concat (dispatch_from tp ph' r)) < n ->
-            lifecycle_from (phase_of ph') n (List.concat (dispatch_from tp ph' r)) = true).
-  { intros n Hn. eapply lifecycle_from_mono; [apply IH|lia]. }
-  unfold tnext in E.
-  destruct ph as [|k|]; destruct o as [e a| |[]| |]; simpl in E;
+  unfold tnext. destruct ph as [|k|]; destruct o as [e a|e a| | |[]| |]; simpl;
     try (destruct (reconnection tp)); try (destruct (negb (attempts tp =? 0) && (attempts tp <=? S k)));
-    inversion E; subst; clear E; cbn [app];
-    first [ exact (IH TUp) | exact (IH (TDown k)) | exact (IH (TDown (S k))) | exact (IH TOver)
-          | first [apply lf_event | apply lf_lose | apply lf_end | apply lf_ok | apply lf_giveup];
-            apply Hmono; simpl; lia ].
+    simpl; constructor.
+Qed.
+
+Lemma tnextb_chunk tp s o :
+  chunk_ok (phase_of (fst s)) (snd (tnextb tp s o)) (phase_of (fst (fst (tnextb tp s o)))).
+Proof.
+  destruct s as [ph pd]. unfold tnextb.
+  destruct ph as [|k|]; destruct pd as [[[e0 a0] [|k0]]|]; destruct o as [e a|e a| | |oc| |];
+    try (destruct (natt a)); cbn -[tnext]; try constructor;
+    match goal with
+    | |- context [tnext ?tp ?ph ?o] =>
+        pose proof (tnext_chunk tp ph o) as H; destruct (tnext tp ph o) as [ph' hs]; simpl in *; exact H
+    end.
+Qed.
+
+Lemma chunk_lifecycle p hs p' : chunk_ok p hs p' -> forall f r,
+  lifecycle_from p' f r = true -> lifecycle_from p (List.length hs + f) (hs ++ r) = true.
+Proof.
+  intros H f r Hr.
+  assert (Hr1 : lifecycle_from p' (S f) r = true) by (eapply lifecycle_from_mono; [exact Hr|lia]).
+  assert (Hr2 : lifecycle_from p' (S (S f)) r = true) by (eapply lifecycle_from_mono; [exact Hr|lia]).
+  destruct H; cbn [List.length app Nat.add].
+  - exact Hr.
+  - apply lf_event; exact Hr.
+  - apply lf_lose; exact Hr1.
+  - apply lf_end; exact Hr2.
+  - apply lf_ok; exact Hr1.
+  - apply lf_giveup; exact Hr.
+Qed.
+
+Lemma dispatch_lifecycle_from tp : forall l s,
+  lifecycle_from (phase_of (fst s)) (S (List.length (List.concat (dispatch_from tp s l))))
+                 (List.concat (dispatch_from tp s l)) = true.
+Proof.
+  induction l as [|o r IH]; intro s; [destruct s as [[] ?]; reflexivity|].
+  cbn [dispatch_from]. pose proof (tnextb_chunk tp s o) as Hc.
+  destruct (tnextb tp s o) as [s' hs]. cbn [List.concat fst snd] in *.
+  eapply lifecycle_from_mono.
+  - apply (chunk_lifecycle _ _ _ Hc (S (List.length (List.concat (dispatch_from tp s' r))))). apply IH.
+  - rewrite app_length. lia.
 Qed.
 
 Theorem dispatch_lifecycle tp l : lifecycle (dispatch tp l) = true.
-Proof. unfold lifecycle, dispatch. apply (dispatch_lifecycle_from tp l TUp). Qed.
+Proof. unfold lifecycle, dispatch. apply (dispatch_lifecycle_from tp l tstart). Qed.
 
 (* ------------------------------------------------------------------------------------ *)
 (* what the dispatched script appends is what the server sent                            *)
 (* ------------------------------------------------------------------------------------ *)
-Lemma dispatch_items_from tp : forall l ph,
-  items (List.concat (dispatch_from tp ph l)) = sent_from tp ph l.
+Lemma tnext_items tp ph o :
+  items (snd (tnext tp ph o)) = match ph, o with TUp, TEvent e a => [PList (e :: a)] | _, _ => [] end.
 Proof.
-  induction l as [|o r IH]; intro ph; [reflexivity|].
-  cbn [dispatch_from sent_from]. unfold tphase_next.
-  destruct (tnext tp ph o) as [ph' hs] eqn:E. cbn [List.concat fst]. rewrite items_app, IH.
-  unfold tnext in E.
-  destruct ph as [|k|]; destruct o as [e a| |[]| |]; simpl in E;
+  unfold tnext. destruct ph as [|k|]; destruct o as [e a|e a| | |[]| |]; simpl;
     try (destruct (reconnection tp)); try (destruct (negb (attempts tp =? 0) && (attempts tp <=? S k)));
-    inversion E; subst; reflexivity.
+    reflexivity.
+Qed.
+
+Lemma tnextb_items tp s o :
+  items (snd (tnextb tp s o)) = match completes s o with Some x => [x] | None => [] end.
+Proof.
+  destruct s as [ph pd]. unfold tnextb, completes.
+  destruct ph as [|k|]; destruct pd as [[[e0 a0] [|k0]]|]; destruct o as [e a|e a| | |oc| |];
+    try (destruct (natt a)); cbn -[tnext]; try reflexivity;
+    match goal with
+    | |- context [tnext ?tp ?ph ?o] =>
+        pose proof (tnext_items tp ph o) as H; destruct (tnext tp ph o) as [ph' hs]; simpl in *; exact H
+    end.
+Qed.
+
+Lemma dispatch_items_from tp : forall l s,
+  items (List.concat (dispatch_from tp s l)) = sent_from tp s l.
+Proof.
+  induction l as [|o r IH]; intro s; [reflexivity|].
+  cbn [dispatch_from sent_from]. unfold tstate_next. pose proof (tnextb_items tp s o) as Hi.
+  destruct (tnextb tp s o) as [s' hs]. cbn [List.concat fst snd] in *. rewrite items_app, IH, Hi.
+  destruct (completes s o); reflexivity.
 Qed.
 
 Theorem dispatch_items tp l : items (dispatch tp l) = server_sent tp l.
 Proof. apply dispatch_items_from. Qed.
+
+(* ------------------------------------------------------------------------------------ *)
+(* an incomplete binary event: no handler invocation, no state across a reconnection     *)
+(* ------------------------------------------------------------------------------------ *)
+(* a half-received packet exists only while the transport is up *)
+Definition pend_ok (s : tstate) : Prop := fst s <> TUp -> snd s = None.
+Lemma tnextb_pend_ok tp s o : pend_ok s -> pend_ok (fst (tnextb tp s o)).
+Proof.
+  destruct s as [ph pd]. unfold pend_ok, tnextb. simpl. intro H.
+  destruct ph as [|k|]; destruct pd as [[[e0 a0] [|k0]]|]; destruct o as [e a|e a| | |oc| |];
+    try (destruct (natt a)); cbn -[tnext]; auto; try (intro H'; congruence);
+    try (specialize (H ltac:(discriminate)); discriminate);
+    match goal with
+    | |- context [tnext ?tp ?ph ?o] => destruct (tnext tp ph o) as [ph' hs]; simpl; reflexivity
+    end.
+Qed.
+(* whenever the transport leaves the `up` phase (loss, CLOSE, DISCONNECT, ...) the half-received packet
+   is gone, and until it is complete it has produced no handler invocation *)
+Lemma tnextb_leaves_up_clears tp pd o :
+  fst (fst (tnextb tp (TUp, pd) o)) <> TUp -> snd (fst (tnextb tp (TUp, pd) o)) = None.
+Proof. intro H. apply (tnextb_pend_ok tp (TUp, pd) o); [intro H'; contradiction|exact H]. Qed.
+Lemma tnextb_incomplete_silent tp e a k o : o <> TBinAtt ->
+  snd (tnextb tp (TUp, Some (e, a, k)) o) = [] \/ snd (fst (tnextb tp (TUp, Some (e, a, k)) o)) = None.
+Proof.
+  intro Hne. unfold tnextb. destruct o as [e' a'|e' a'| | |oc| |]; try congruence; cbn -[tnext]; auto;
+    match goal with
+    | |- context [tnext ?tp ?ph ?o] => destruct (tnext tp ph o) as [ph' hs]; simpl; auto
+    end.
+Qed.
+(* a header, the loss of the connection, a reconnection, another event: only the other event arrives *)
+Example incomplete_binary_nontrivial :
+  let tp := mkTP true 0 in
+  let T := [TBinHead (PStr (s2l "b")) [PBytes [1%N; 2%N]; PInt 7%Z]; TLose; TAttempt AOk; TBinAtt;
+            TEvent (PStr (s2l "c")) []; TBinHead (PStr (s2l "d")) [PBytes [3%N]]; TBinAtt] in
+  dispatch tp T = [HDisconnect; NsSet false; NsSet true; HConnect; HEvent (PStr (s2l "c")) [];
+                   HEvent (PStr (s2l "d")) [PBytes [3%N]]] /\
+  server_sent tp T = [PList [PStr (s2l "c")]; PList [PStr (s2l "d"); PBytes [3%N]]].
+Proof. vm_compute. split; reflexivity. Qed.
 
 (* ------------------------------------------------------------------------------------ *)
 (* one producer: arrived ++ (items it has still to append) = items of its script         *)
